@@ -290,6 +290,7 @@ fn edit_name(e: &Edit) -> &'static str {
         Edit::Break(_) => "break",
         Edit::Resend => "resend",
         Edit::Retarget(_) => "retarget-imports",
+        Edit::Blank(_) => "blank",
     }
 }
 
